@@ -10,6 +10,7 @@
    2. the fail-safe decryptor over ANY source whose `read_full` agrees with a cursor's is in
       simulation with the decryptor over that cursor, so `repair` gives the same result
       (ComposeRdOnly.repair_sim) and the existing theorems are reused as they stand. *)
+From MLA Require Import Limit.
 From MLA Require Import Base Stream EncLayer Blocks Writer Repair RepairSpec RepairPure RepairProofs2 RepairProofs6
   EncAuthFs EncAuthTrunc EncWriter Format Ecies Archive ArchiveProofs HeaderStream HeaderStreamProofs ArchiveSrc
   Run ComposeRdOnly ComposeRepair.
@@ -120,6 +121,7 @@ Qed.
 
 (* ---------- 2. the fail-safe decryptor over two sources whose read_full agree ---------- *)
 Section FsEncSim.
+  Context {LIM : Limit}.
   Variables CHUNK TAG : N.
   Variable ks : N -> N -> N.
   Variable tagc : N -> bytes -> bytes.
@@ -225,6 +227,7 @@ Qed.
 
 Section ArchiveCut.
   Variables CHUNK TAG CIPHERBUF BLOCK LIMIT FNMAX CACHE : N.
+  Local Hint Extern 0 Limit => exact LIMIT : typeclass_instances.
   Hypothesis HFN : FNMAX < 2 ^ 64.
   Hypothesis HCACHE : 0 < CACHE.
   Variables TS TC TA TE : N.
@@ -286,7 +289,9 @@ Section ArchiveCut.
     (n < len (ser_header hp) -> r = Err (if n <? 7 then EUnexpectedEof else EDeser)) /\
     (len (ser_header hp) <= n ->
        TagCollision pubk dh kdf wenc wtag (wc_eph cfg) (wc_key cfg) (wc_recipients cfg) privs \/
-       concl bl r).
+       (* finalize of the repaired archive did not fail with SerializationError (its footer
+          within the bincode limit); below the header length Err EDeser is the header's *)
+       (r <> Err EDeser -> concl bl r)).
   Proof.
     intros HR0 Hs0 Hfuel r. subst r. unfold ArchiveSrc.failsafe_repair.
     destruct (read_header_s_refines S0 _ R0 HR0 LIMIT s0 Hs0) as (s1 & Hh).
@@ -362,10 +367,12 @@ Section ArchiveCut.
           split; [f_equal; unfold sliceN; rewrite dropN_dropN; reflexivity|].
           split; [exact Hk1|]. split; [lia|]. split; [intros Hz; destruct (Hk3 Hz); [now left | right; lia]|].
           rewrite N.add_assoc. exact Hx'. }
+        intros Hser.
         apply (repair_sound_rd FNMAX CACHE HFN HCACHE TS TC TA TE Htags H H_len S0 w _ HRd bl trailer Hwfb Htr').
         * apply prefix_takeN.
         * rewrite N.add_0_r. exact Hs1.
         * unfold w. rewrite len_takeN. fold plain. lia.
+        * exact Hser.
   Qed.
 End ArchiveCut.
 
@@ -377,7 +384,7 @@ Lemma archive_write_shape CHUNK CIPHERBUF BLOCK LIMIT FNMAX TS TC TA TE H order 
   wc_compress cfg = false ->
   let hp := to_persistent pubk dh kdf wenc wtag cfg in
   exists sf rs wire,
-    wrun FNMAX TS TC TA TE H order w_init (ops ++ [OFinalize]) = (sf, rs) /\ first_bad rs = Ok tt /\
+    wrun (LIM := LIMIT) FNMAX TS TC TA TE H order w_init (ops ++ [OFinalize]) = (sf, rs) /\ first_bad rs = Ok tt /\
     config_size hp <= LIMIT /\ a = ser_header hp ++ wire /\
     if wc_encrypt cfg then
       exists pieces fuelw es, concat pieces = w_out sf /\
@@ -389,7 +396,7 @@ Proof.
   destruct (wc_encrypt cfg && _); [discriminate|].
   unfold dump_header in Hw. fold hp in Hw.
   destruct (N.ltb_spec LIMIT (config_size hp)) as [?|Hl]; [discriminate|]. cbn [bind] in Hw.
-  destruct (wrun FNMAX TS TC TA TE H order w_init (ops ++ [OFinalize])) as [sf rs] eqn:Er.
+  destruct (wrun (LIM := LIMIT) FNMAX TS TC TA TE H order w_init (ops ++ [OFinalize])) as [sf rs] eqn:Er.
   destruct (first_bad rs) as [[]|e|c] eqn:Ef; try discriminate. cbn [bind] in Hw.
   unfold lower_write in Hw. rewrite Hnc in Hw. cbn [bind] in Hw.
   exists sf, rs. destruct (wc_encrypt cfg).
